@@ -256,3 +256,24 @@ Proof. exact C04_spec.smallest_key_lemma. Qed.
    floor(log2(log2 factor)) (the libm value is an input; every factor > 1 gives a non-NaN one) *)
 Theorem schema_in_range : forall fl : f64, is_nan fl = false -> -4 <= pick_schema_of_floor fl <= 8.
 Proof. exact C04_spec.schema_in_range_lemma. Qed.
+
+(* exemplars_sorted: for every oracle value and every TTL, inserting a non-NaN exemplar into a
+   value-sorted list of non-NaN exemplars leaves it value-sorted *)
+Theorem exemplars_sorted : forall g l e o, ex_sorted l = true -> vnn l -> is_nan (fst e) = false ->
+  ex_sorted (add_exemplar g l e o) = true.
+Proof. exact C04_spec.exemplars_sorted_lemma. Qed.
+
+(* the exemplar clauses over whole runs: for every configuration (every limit, every TTL), every
+   operation sequence and every value of the math.Log oracle, each Write exposes native exemplars
+   that satisfy the SPECIFICATION's exemplars_check against exs = the exemplar-carrying non-NaN
+   observations made so far: none if the maximum is negative, else at most the configured number
+   (10 for 0), sorted by value, each one of exs, the most recent of exs among them *)
+Theorem exemplars_over_runs : forall ops h exs g, ex_inv h exs -> h_cfg h = g ->
+  match run_exs h exs ops with
+  | Some l => Forall (fun p => exemplars_check g (snd p) (w_ex (fst p)) = true) l
+  | None => True
+  end.
+Proof. exact C04_spec.exemplars_run_lemma. Qed.
+
+Theorem exemplars_initially : forall g, ex_inv (new_hist g) [].
+Proof. exact C04_spec.ex_inv_new. Qed.
